@@ -35,6 +35,7 @@ def dispatch (comp : String) : Option (String → String → Verdict) :=
   | "essink" => some EsSink.check
   | "ratelimit" => some Limiter.check
   | "supervise" => some Supervisor.check
+  | "supervise-C05" => some Supervisor.check
   | "timeout" => some MainLoop.check
   | "flow-C01" => some (ExecTrace.check "C01")
   | "flow-C02" => some (ExecTrace.check "C02")
